@@ -211,6 +211,10 @@ def run(ck, prog):
     ck.doc('C13.R5', 'argument type -> setter dispatch table (from the instantiations)', 8)
     ck.doc('C08.R7', '(shared rule) ReadWriteLogRecord::SetAttribute stores last-write-wins', 1)
     ck.doc('C13.R6', 'ReadWriteLogRecord setters: every parameter stored on every path (explicit identity always overrides)', 10)
+    ck.doc('C13.R8', 'attribute copy callbacks handed to ForEachKeyValue never ask to stop', 1)
+    ck.doc('C01.R3', '(shared rule, see C01) the container handed to Export is filled by this batch only', 4)
+    ck.doc('C01.R4', '(shared rule, see C01) count handed to Consume derives from size() / the batch bound', 1)
+    ck.doc('C02.R13', '(shared rule, see C02) the logger provider\'s destructor shuts its context down', 1)
     ck.doc('C13.R7', 'the simple log processor hands every record to the exporter (no path around Export)', 1)
     with ck.canary('C13.R2'):
         rule_r2_api_canary(ck, prog)
@@ -227,6 +231,19 @@ def run(ck, prog):
     n6 += c04.rule_r7(ck, prog, cls='sdk::logs::ReadWriteLogRecord', base='sdk::logs::Recordable', rule='C13.R6')
     rule_r7_simple(ck, prog)
     rule_r1_exposure(ck, prog)
+    # exactly once through the batch processor: the container handed to Export holds this batch only (see C01.R3)
+    from . import c01, c02
+    from .common import Roles, callbacks_never_stop
+    from ..callgraph import CallGraph
+    cg = CallGraph(prog)
+    c01.rule_r3_r4(ck, prog, cg, Roles(prog, 'sdk::logs::BatchLogRecordProcessor', cg=cg))
+    # the scope / resource a queued record points to stays alive until it is exported: the provider drains in its destructor
+    c02.rule_r13(ck, prog, providers=('sdk::logs::LoggerProvider',))
+    # attributes supplied as a KeyValueIterable are all copied
+    hosts = [f for f in prog.funcs.values() if 'LogRecordSetterTrait<' in f.qn or (f.cls or '').startswith('opentelemetry::sdk::logs::')]
+    n8 = callbacks_never_stop(ck, prog, 'C13.R8', hosts)
+    if not n8:
+        raise AnalysisBroken('no ForEachKeyValue copy callback found in the logs API traits')
     return {}
 
 
